@@ -222,10 +222,154 @@ done:
   printf ("%s\n", out);
 }
 
+
+/* ------------------------------------------------------------------ the message API (model: coq/Fds/MsgApi.v)
+   api <op>*   ops as in ml/fds/driver.ml (run_api).  After every op: <result>/<descriptors the library holds>
+   where the second number is  open descriptors - baseline - descriptors the application owns and has not closed.
+   A failing _dbus_dup is provoked for real: the descriptor table is filled up to RLIMIT_NOFILE with fillers,
+   leaving exactly as many free slots as dups are to succeed. */
+#include <sys/resource.h>
+#define MAXMSG 64
+#define MAXAPP 512
+#define NOFILE_LIMIT 160
+
+static int filler[NOFILE_LIMIT + 8]; static int nfiller;
+static void exhaust (int leave)
+{
+  int f;
+  nfiller = 0;
+  while ((f = open ("/dev/null", O_RDONLY | O_CLOEXEC)) >= 0 && nfiller < NOFILE_LIMIT) filler[nfiller++] = f;
+  while (leave-- > 0 && nfiller > 0) close (filler[--nfiller]);
+}
+static void release (void) { while (nfiller > 0) close (filler[--nfiller]); }
+
+static int get_args_n (DBusMessage *m, int want, int mismatch, int *out)
+{
+  DBusError e; const char *s = NULL; dbus_bool_t ok;
+  int i;
+  for (i = 0; i < 4; i++) out[i] = -1;
+  dbus_error_init (&e);
+#define FD(i) DBUS_TYPE_UNIX_FD, &out[i]
+  if (mismatch)
+    switch (want)
+      {
+      case 0: ok = dbus_message_get_args (m, &e, DBUS_TYPE_STRING, &s, DBUS_TYPE_INVALID); break;
+      case 1: ok = dbus_message_get_args (m, &e, FD (0), DBUS_TYPE_STRING, &s, DBUS_TYPE_INVALID); break;
+      case 2: ok = dbus_message_get_args (m, &e, FD (0), FD (1), DBUS_TYPE_STRING, &s, DBUS_TYPE_INVALID); break;
+      case 3: ok = dbus_message_get_args (m, &e, FD (0), FD (1), FD (2), DBUS_TYPE_STRING, &s, DBUS_TYPE_INVALID); break;
+      default: ok = dbus_message_get_args (m, &e, FD (0), FD (1), FD (2), FD (3), DBUS_TYPE_STRING, &s, DBUS_TYPE_INVALID); break;
+      }
+  else
+    switch (want)
+      {
+      case 0: ok = dbus_message_get_args (m, &e, DBUS_TYPE_INVALID); break;
+      case 1: ok = dbus_message_get_args (m, &e, FD (0), DBUS_TYPE_INVALID); break;
+      case 2: ok = dbus_message_get_args (m, &e, FD (0), FD (1), DBUS_TYPE_INVALID); break;
+      case 3: ok = dbus_message_get_args (m, &e, FD (0), FD (1), FD (2), DBUS_TYPE_INVALID); break;
+      default: ok = dbus_message_get_args (m, &e, FD (0), FD (1), FD (2), FD (3), DBUS_TYPE_INVALID); break;
+      }
+#undef FD
+  dbus_error_free (&e);
+  return ok ? 1 : 0;
+}
+
+static void emit_file (int fd, int first)
+{
+  int id = id_of_fd (fd);
+  if (id < 0) emit ("%s?", first ? "" : ","); else emit ("%s%d", first ? "" : ",", id);
+}
+
+static void run_api (char *line)
+{
+  char *save = NULL, *tok;
+  DBusMessage *msg[MAXMSG]; int app[MAXAPP]; int napp = 0, app_open = 0, nopen = 0, base, i;
+  outn = 0; out[0] = 0;
+  memset (msg, 0, sizeof msg);
+  strtok_r (line, " ", &save);
+  base = count_fds ();
+  while ((tok = strtok_r (NULL, " ", &save)) != NULL)
+    {
+      char *s2 = NULL; char *op = strtok_r (tok, ".", &s2);
+      char *a1 = strtok_r (NULL, ".", &s2), *a2 = strtok_r (NULL, ".", &s2), *a3 = strtok_r (NULL, ".", &s2), *a4 = strtok_r (NULL, ".", &s2);
+      int h = a1 ? atoi (a1) : 0;
+      if (strchr ("FUVACGR", op[0]) && (h < 0 || h >= MAXMSG || msg[h] == NULL))
+        emit ("?");               /* the handle does not exist here although the script expects it: an earlier call went wrong */
+      else if (op[0] == 'O')
+        {
+          int f = open (scratch, O_RDONLY | O_CLOEXEC);
+          nopen++; lseek (f, OFFSET + nopen, SEEK_SET);
+          app[napp++] = f; app_open++;
+          emit ("f%d", nopen);
+        }
+      else if (op[0] == 'N') { msg[h] = dbus_message_new_method_call (NULL, "/x", "x.I", "M"); emit ("."); }
+      else if (op[0] == 'F') { dbus_message_ref (msg[h]); emit ("."); }
+      else if (op[0] == 'U')
+        {
+          /* the model prints the files of the message when this is the last reference; the refcount is not visible
+             through the API, so the harness tracks it in the handle table: a handle is dropped when the model says so,
+             which the generator encodes by the op letter: U = not last, V = last */
+          dbus_message_unref (msg[h]); emit (".");
+        }
+      else if (op[0] == 'V')
+        {
+          const int *mf; unsigned nmf, j;
+          dbus_message_lock (msg[h]);
+          _dbus_message_get_unix_fds (msg[h], &mf, &nmf);
+          if (nmf == 0) emit ("-");
+          for (j = 0; j < nmf; j++) emit_file (mf[j], j == 0);
+          dbus_message_unref (msg[h]); msg[h] = NULL;
+        }
+      else if (op[0] == 'A')
+        {
+          DBusMessageIter it; dbus_bool_t ok; int okdup = atoi (a3);
+          dbus_message_iter_init_append (msg[h], &it);
+          if (!okdup) exhaust (0);
+          ok = dbus_message_iter_append_basic (&it, DBUS_TYPE_UNIX_FD, &app[atoi (a2)]);
+          if (!okdup) release ();
+          emit ("%d", ok ? 1 : 0);
+        }
+      else if (op[0] == 'C')
+        {
+          int h2 = atoi (a2); int fail = strcmp (a3, "-") != 0;
+          if (fail) exhaust (atoi (a3));
+          msg[h2] = dbus_message_copy (msg[h]);
+          if (fail) release ();
+          emit ("%d", msg[h2] ? 1 : 0);
+        }
+      else if (op[0] == 'G')
+        {
+          DBusMessageIter it; int k = atoi (a2), okdup = atoi (a3), fd = -1;
+          dbus_message_iter_init (msg[h], &it);
+          for (i = 0; i < k; i++) dbus_message_iter_next (&it);
+          if (!okdup) exhaust (0);
+          if (dbus_message_iter_get_arg_type (&it) == DBUS_TYPE_UNIX_FD) dbus_message_iter_get_basic (&it, &fd);
+          if (!okdup) release ();
+          if (fd >= 0) { app[napp++] = fd; app_open++; emit_file (fd, 1); } else emit ("-");
+        }
+      else if (op[0] == 'R')
+        {
+          int want = atoi (a2), fail = strcmp (a3, "-") != 0, mm = atoi (a4), o[4], ok;
+          if (fail) exhaust (atoi (a3));
+          ok = get_args_n (msg[h], want, mm, o);
+          if (fail) release ();
+          if (ok) { if (want == 0) emit ("."); for (i = 0; i < want; i++) { app[napp++] = o[i]; app_open++; emit_file (o[i], i == 0); } }
+          else emit ("-");
+        }
+      else if (op[0] == 'X') { close (app[h]); app[h] = -1; app_open--; emit ("."); }
+      else emit ("?");
+      emit ("/%d ", count_fds () - base - app_open);
+    }
+  for (i = 0; i < MAXMSG; i++) if (msg[i]) dbus_message_unref (msg[i]);
+  for (i = 0; i < napp; i++) if (app[i] >= 0) close (app[i]);
+  emit ("end/%d", count_fds () - base);
+  printf ("%s\n", out);
+}
+
 int main (void)
 {
   char *line = NULL; size_t cap = 0; struct stat st; int f;
   signal (SIGPIPE, SIG_IGN);
+  { struct rlimit rl; getrlimit (RLIMIT_NOFILE, &rl); rl.rlim_cur = NOFILE_LIMIT; setrlimit (RLIMIT_NOFILE, &rl); }
   snprintf (scratch, sizeof scratch, "/tmp/verif_fds_scratch_%d", (int) getpid ());
   f = open (scratch, O_CREAT | O_RDWR | O_CLOEXEC, 0600);
   fstat (f, &st); sdev = st.st_dev; sino = st.st_ino;
@@ -237,6 +381,7 @@ int main (void)
       size_t l = strlen (line);
       while (l && (line[l - 1] == '\n' || line[l - 1] == '\r')) line[--l] = 0;
       if (strncmp (line, "run ", 4) == 0) run_case (line);
+      else if (strncmp (line, "api", 3) == 0) run_api (line);
       else printf ("?unknown-command\n");
       fflush (stdout);
     }
